@@ -59,7 +59,7 @@ func RandKbd(r *hx.Rand, g *hx.Gen, u string) Req {
 	}
 	for _, qs := range q.KbdRounds {
 		if r.Chance(1, 7) {
-			q.Follow = append(q.Follow, r.PickStr("i"+itoa(qs+1), "ib", "gt", "gm", "o", "i"+itoa(qs+2)))
+			q.Follow = append(q.Follow, r.PickStr("i"+itoa(qs+1), "ib", "gt", "gm", "o", "i"+itoa(qs+2), "ij"+itoa(qs), "ij"+itoa(qs)))
 			g.Stat("req.kbd-bad-response")
 			if r.Chance(1, 3) {
 				q.Follow = append(q.Follow, "i0")
